@@ -5,14 +5,14 @@ import toklib as T
 
 def run(ck):
     bindir, model = K.setup(ck)
-    n = 1500 if ck.quick else 40000
+    n = 6000 if ck.quick else 40000
     corr = [T.gen_case(ck.rng, "h") for _ in range(n)]
     K.correspondence(ck, bindir, model, corr)
     K.reference_leg(ck, model, corr)
-    inputs = K.gen_inputs(ck, 700 if ck.quick else 20000, "h")
+    inputs = K.gen_inputs(ck, 2800 if ck.quick else 20000, "h")
     e1, f1 = K.chunk_oracle(ck, bindir, "h", inputs, "C03")
-    e2, f2 = K.tree_chunk_oracle(ck, bindir, "h", inputs[: (300 if ck.quick else 8000)])
-    e3, f3 = K.script_inject_oracle(ck, bindir, model, inputs[: (400 if ck.quick else 8000)])
+    e2, f2 = K.tree_chunk_oracle(ck, bindir, "h", inputs[: (1200 if ck.quick else 8000)])
+    e3, f3 = K.script_inject_oracle(ck, bindir, model, inputs[: (1600 if ck.quick else 8000)])
     ck.cov.update({
         "evaluations": n + e1 + e2 + e3, "distinct_nontrivial": len(set(s for s in inputs if len(s) > 3 and ("<" in s or "&" in s))),
         "rule": "grammar-generated html (tags, attributes, comments, doctypes, raw text elements, CDATA, char refs, CR/LF/NUL/BOM "
